@@ -8,7 +8,7 @@
    C01_Model.spec_run.  [find_val t l] is the value stored for the sorted word t, [lookup K t] the map's. *)
 From Coq Require Import ZArith List Bool.
 Import ListNotations.
-Require Import Simplex Trie C01_Model C01_Proofs C01_Cofaces C01_Closure.
+Require Import Simplex Trie C01_Model C01_Proofs C01_Cofaces C01_Closure C01_Counts.
 Local Open Scope Z_scope.
 
 (* ---- well-formedness (siblings strictly sorted, recursively) is kept by every mutating routine ---- *)
@@ -273,6 +273,17 @@ Theorem C01_preconditions_suffice : forall ops,
 Proof. exact pre_history_ok. Qed.
 Print Assumptions C01_preconditions_suffice.
 
+(* ---- num_simplices_by_dimension: when the cached dimension is a valid bound (below the 41 the code allows) the call
+        succeeds, entry i of the returned vector is the number of simplices of dimension i of the abstract complex
+        of the tree, and there is no simplex of a dimension beyond the vector ---- *)
+Theorem C01_counts : forall st,
+  wf (tree st) -> ub_valid st -> dim_ub st < 41 ->
+  exists r, snd (count_by_dim st) = Some r /\
+            (forall i, (i < length r)%nat -> nth i r 0 = count_dim (abs (tree st)) (Z.of_nat i)) /\
+            (forall i, (length r <= i)%nat -> count_dim (abs (tree st)) (Z.of_nat i) = 0).
+Proof. exact count_by_dim_correct. Qed.
+Print Assumptions C01_counts.
+
 (* ---- stated, not proved in Coq (compared per input by the correspondence run instead) ---- *)
 (* histories that also contain expansion (its algorithm, siblings_expansion, is the subject of C04; here it is
    modelled at specification level and compared with the C++ per input) *)
@@ -280,12 +291,6 @@ Definition C01_history_refines_full : Prop :=
   forall ops, ok_history ops = true ->
     (forall t, t <> [] -> find_val t (tree (run true ops)) = lookup (spec_run ops) t) /\
     snd (dimension (run true ops)) = cdim (spec_run ops).
-(* num_simplices_by_dimension returns the exact counts per dimension (proved: which entries are positive, and the
-   dimension it writes back - C01_counts_writeback; not proved: the numbers themselves) *)
-Definition C01_counts_full : Prop :=
-  forall st, wf (tree st) -> ub_valid st ->
-    exists r, snd (count_by_dim st) = Some r /\
-              forall d, (d < length r)%nat -> nth d r 0 = count_dim (abs (tree st)) (Z.of_nat d).
 (* the iteration ORDER of complex_simplex_range / skeleton_simplex_range (post-order DFS) and of the boundary
    (drop the last vertex first) is part of the algorithm model and compared verbatim with the C++; only the
    set / multiset content is a theorem *)
